@@ -56,13 +56,14 @@ def programs(tier):
         add("cmp-struct|%s" % "+".join(names), "comparison traits on a struct whose fields are called %s, inherent-method field type, shadowed prelude" % (names,),
             """
 #[derive_ex(PartialEq, Eq, PartialOrd, Ord, Hash)]
-pub struct T { pub %s: Evil, #[ord(key = crate::support::kk::<1, _>(&$))] pub %s: Evil, pub %s: Evil }
+pub struct T { pub %s: Evil, #[ord(key = crate::support::kk::<1, _>(&$))] pub %s: Evil, #[ord(reverse)] pub %s: Evil }
 """ % (a, b, c), CMP_ORACLE + """
 pub fn check<S: Src>(s: &mut S) {
     let (x0, x1, x2, y0, y1, y2) = (s.u8(), s.u8(), s.u8(), s.u8(), s.u8(), s.u8());
     let x = T { %(a)s: Evil(x0), %(b)s: Evil(x1), %(c)s: Evil(x2) };
     let y = T { %(a)s: Evil(y0), %(b)s: Evil(y1), %(c)s: Evil(y2) };
-    let r = lex(&[x0, x1 >> 1, x2], &[y0, y1 >> 1, y2]);
+    // the third field is compared in reverse order
+    let r = lex(&[x0, x1 >> 1, 255 - x2], &[y0, y1 >> 1, 255 - y2]);
     cover!(r == Ordering::Less, "less");
     cover!(r == Ordering::Equal, "equal");
     assert!((x == y) == (r == Ordering::Equal), "eq");
@@ -101,6 +102,25 @@ pub fn check<S: Src>(s: &mut S) {
     assert!(h.len == want && (want < 1 || h.buf[0] == kx[1]) && (want < 2 || h.buf[1] == kx[2]), "hash-feed");
 }
 """, unwind=18)
+    # 2b. generic parameters spelled as raw identifiers / called like the expansion's generics, used in field types (default bounds must still be found)
+    add("clone-cmp|raw-type-parameter", "a type parameter spelled r#type used in field types",
+        """
+#[derive_ex(Clone, PartialEq, PartialOrd, Hash, Debug, Default)]
+pub struct T<r#type, r#match> { pub x: r#type, pub y: ::core::marker::PhantomData<r#match>, pub z: (r#type, u8) }
+pub struct NoTraits;
+""", """
+pub fn check<S: Src>(s: &mut S) {
+    let (a, b, c, d) = (s.u8(), s.u8(), s.u8(), s.u8());
+    let x = T::<u8, NoTraits> { x: a, y: core::marker::PhantomData, z: (b, 1) };
+    let y = T::<u8, NoTraits> { x: c, y: core::marker::PhantomData, z: (d, 1) };
+    assert!((x == y) == (a == c && b == d), "eq");
+    assert!(x.partial_cmp(&y) == Some((a, b).cmp(&(c, d))), "partial_cmp");
+    let z = x.clone();
+    assert!(z.x == a && z.z.0 == b, "clone");
+    let dflt = <T<u8, NoTraits> as Default>::default();
+    assert!(dflt.x == 0, "default");
+}
+""")
     # 3. by = ... closures (the expansion wraps them in helper fns taking `impl Fn`)
     add("cmp-by|this+other", "by = ... comparators under a shadowed prelude",
         """
